@@ -413,3 +413,50 @@ def c28(tier):
             out.append(V("d2_plus_plus", binop("+", par(binop("+", "DS_V1", "DS_V2")), "DS_V1")))
             out.append(V("agg_of_sum", agg("sum", par(binop("+", "DS_V1", "DS_V2")), "group by", ["Id_1"]), 2))
     return [t for t in out if t is not None]
+
+
+# ------------------------------------------------------------------------------------------ C06 analytic functions
+def c06(tier):
+    n = 3 if tier == "quick" else 4
+    out = []
+    P1 = dict(partition_by=["Id_1"], order_by=[("Id_2", "asc")])
+    PD = dict(partition_by=["Id_1"], order_by=[("Id_2", "desc")])
+    wins = {
+        "default": window("data", -1, "preceding", 0, "current"),
+        "all": window("data", -1, "preceding", -1, "following"),
+        "p1_cur": window("data", 1, "preceding", 0, "current"),
+        "p1_f1": window("data", 1, "preceding", 1, "following"),
+        "cur_f1": window("data", 0, "current", 1, "following"),
+        "p2_p1": window("data", 2, "preceding", 1, "preceding"),
+        "f1_f2": window("data", 1, "following", 2, "following"),
+        "cur_unb": window("data", 0, "current", -1, "following"),
+    }
+    ops = ["sum", "avg", "count", "min", "max", "first_value", "last_value"]
+    if tier != "quick":
+        ops += ["median", "var_pop", "stddev_samp"]
+    for op in ops:
+        for wn, w in wins.items():
+            if tier == "quick" and op not in ("sum", "first_value", "count") and wn not in ("default", "p1_f1", "p2_p1"):
+                continue
+            nn = min(n, 3) if op in ("median", "var_pop", "stddev_samp") else n
+            out.append(T("ds_%s_%s" % (op, wn), analytic(op, "DS_4", win=w, **P1), nn))
+        out.append(T("ds_%s_desc" % op, analytic(op, "DS_4", win=wins["p1_cur"], **PD), n))
+        out.append(T("calc_%s" % op, calc("DS_4", [("measure", "Me_9", analytic(op, "Me_1", win=wins["default"], **P1))]), n))
+    for op in ("lag", "lead"):
+        out.append(T("ds_%s_1" % op, analytic(op, "DS_4", params=[1], **P1), n))
+        out.append(T("ds_%s_2_desc" % op, analytic(op, "DS_4", params=[2], **PD), n))
+        out.append(T("calc_%s_1" % op, calc("DS_4", [("measure", "Me_9", analytic(op, "Me_1", params=[1], **P1))]), n))
+    out.append(T("ds_rank", calc("DS_4", [("measure", "Me_9", analytic("rank", None, partition_by=["Id_1"], order_by=[("Me_1", "asc")]))]), n))
+    out.append(T("ds_rank_desc", calc("DS_4", [("measure", "Me_9", analytic("rank", None, partition_by=["Id_1"], order_by=[("Me_1", "desc")]))]), n))
+    out.append(T("ds_ratio", analytic("ratio_to_report", "DS_4", partition_by=["Id_1"]), n))
+    out.append(T("calc_ratio", calc("DS_4", [("measure", "Me_9", analytic("ratio_to_report", "Me_1", partition_by=["Id_1"]))]), n))
+    out.append(T("ds_sum_multi", analytic("sum", "DS_1", win=wins["p1_f1"], **P1), n))
+    out.append(T("ds_sum_order_measure", analytic("sum", "DS_4", win=wins["p1_cur"], partition_by=["Id_1"], order_by=[("Me_1", "asc")]), n))
+    out.append(T("ds_sum_nopartition", analytic("sum", "DS_6", win=wins["p1_cur"], order_by=[("Id_1", "asc")]), n))
+    out.append(T("ds_sum_partition_only", analytic("sum", "DS_4", win=wins["all"], partition_by=["Id_1"]), n))
+    out.append(T("ds_sum_range", analytic("sum", "DS_6", win=window("range", 1, "preceding", 1, "following"), order_by=[("Id_1", "asc")]), n))
+    out.append(T("ds_sum_range_desc", analytic("sum", "DS_6", win=window("range", 2, "preceding", 0, "current"), order_by=[("Id_1", "desc")]), n))
+    out.append(T("ds_count_range_unb", analytic("count", "DS_6", win=window("range", -1, "preceding", 1, "following"), order_by=[("Id_1", "asc")]), n))
+    out.append(T("ds_sum_partition_except", analytic("sum", "DS_4", win=wins["default"], partition_by=["Id_2"], partition_op="except", order_by=[("Id_2", "asc")]), n))
+    out.append(T("filter_on_analytic", filter_(calc("DS_4", [("measure", "Me_9", analytic("sum", "Me_1", win=wins["default"], **P1))]), binop(">", "Me_9", 1)), n))
+    return out
